@@ -1,7 +1,7 @@
 (* C04 — The store holds only complete, verified publication points.
    Only statements, [exact], [Check] pins. *)
 From Coq Require Import List NArith Bool Permutation.
-From RV Require Import C03.Model C03.Spec C03.Proofs C03.SpecProofs C04.Spec C04.Proofs.
+From RV Require Import C03.Model C03.Spec C03.Proofs C03.SpecProofs C04.Spec C04.Proofs C04.Usable.
 Import ListNotations.
 Local Open Scope N_scope.
 
@@ -36,6 +36,13 @@ Theorem C04_model_satisfies_spec : forall base runs, wf_runsb runs = true ->
   spec_okb runs (model_obs base runs) = true.
 Proof. exact model_satisfies_spec04. Qed.
 
+(* "... and usable for validation": the second oracle of the case checker (a run that leaves a consistent
+   stored point as it was contributes the whole object set of that version whenever its manifest still
+   validates as a stored manifest) holds of the model on every well-formed history *)
+Theorem C04_model_satisfies_usable : forall base runs, wf_runsb runs = true ->
+  usable04_okb runs (model_obs base runs) = true.
+Proof. exact model_satisfies_usable04. Qed.
+
 (* non-vacuity: v1 stored; v2 incomplete -> unchanged; garbage manifest -> unchanged; v2' complete -> replaced *)
 Example C04_nonvacuous :
   let bad := mkv 7 false false false false false false false 0 0 [] in
@@ -61,3 +68,5 @@ Check C04_history_verified : forall fixed runs st, wf_runs runs -> no_tamper run
   Forall (fun res => verified (fst res)) (run_history fixed st runs).
 Check C04_model_satisfies_spec : forall base runs, wf_runsb runs = true ->
   spec_okb runs (model_obs base runs) = true.
+Check C04_model_satisfies_usable : forall base runs, wf_runsb runs = true ->
+  usable04_okb runs (model_obs base runs) = true.
